@@ -192,7 +192,8 @@ impl FrameWriter for QuicFrameWriter {
                 "Datagram not allowed for this connection",
             ));
         }
-        let fragments = Fragments::make_fragments(mtu.unwrap(), &mut self.frame_id, frame);
+        let fragments = Fragments::try_make_fragments(mtu.unwrap(), &mut self.frame_id, frame)
+            .ok_or_else(|| IoError::new(ErrorKind::InvalidInput, "Frame too large for datagram"))?;
         let mut len = 0;
         for fragment in fragments {
             len += fragment.len();
